@@ -614,19 +614,23 @@ def get_subgraph_between_topological_nodes(graph: nx.DiGraph, topo_order: list, 
     subgraph = nx.DiGraph()
     if "id" in graph.graph:
         subgraph.graph["id"] = graph.graph["id"]
+    # (attributes are copied with update(): unpacking them as keyword arguments fails for attribute names that are not
+    # strings, or that collide with a parameter name of add_node / add_edge such as 'u_of_edge')
     for i in range(left, right):
-        subgraph.add_node(topo_order[i], **graph.nodes[topo_order[i]])
+        subgraph.add_node(topo_order[i])
+        subgraph.nodes[topo_order[i]].update(graph.nodes[topo_order[i]])
 
     fixed_nodes = set(subgraph.nodes())
 
     # Add the edges between the nodes in the subgraph
     for u, v in graph.edges():
         if u in fixed_nodes or v in fixed_nodes:
-            subgraph.add_edge(u, v, **graph[u][v])
+            subgraph.add_edge(u, v)
+            subgraph[u][v].update(graph[u][v])
             if u not in fixed_nodes:
-                subgraph.add_node(u, **graph.nodes[u])
+                subgraph.nodes[u].update(graph.nodes[u])
             if v not in fixed_nodes:
-                subgraph.add_node(v, **graph.nodes[v])
+                subgraph.nodes[v].update(graph.nodes[v])
 
     return subgraph
 
